@@ -31,8 +31,9 @@ build_cfg() {
 cfgs_for() {
   case "$1" in
     C08) echo "base checks" ;;
-    C07) echo "base expl checks_expl" ;;
-    C20) echo "base expl" ;;
+    C07) if [ "${2:-quick}" = "thorough" ]; then echo "base expl checks_expl"; else echo "base expl"; fi ;;
+    C01|C02) if [ "${2:-quick}" = "thorough" ]; then echo "base expl"; else echo "base"; fi ;;
+    C20) if [ "${2:-quick}" = "thorough" ]; then echo "base expl"; else echo "base"; fi ;;
     *) echo "base" ;;
   esac
 }
@@ -46,12 +47,12 @@ case "${1:-}" in
   replay)
     f="$2"
     id=$(python3 -c "import json,sys; print(json.load(open(sys.argv[1]))['property'])" "$f")
-    for c in $(cfgs_for "$id"); do build_cfg "$c" || exit 2; done
+    for c in $(cfgs_for "$id" thorough); do build_cfg "$c" || exit 2; done
     exec "$ROOT/target/base/release/mc" replay "$f" ;;
   "")
     echo "usage: $0 <ID> <quick|thorough>" >&2; exit 2 ;;
   *)
     id="$1"; tier="${2:-${VERIF_TIER:-quick}}"
-    for c in $(cfgs_for "$id"); do build_cfg "$c" || exit 2; done
+    for c in $(cfgs_for "$id" "$tier"); do build_cfg "$c" || exit 2; done
     exec "$ROOT/target/base/release/mc" check "$id" "$tier" ;;
 esac
